@@ -26,6 +26,7 @@ def pl_dtype(dtype: str):
         "uint8": pl.UInt8, "uint16": pl.UInt16, "uint32": pl.UInt32, "uint64": pl.UInt64,
         "float": pl.Float64, "float32": pl.Float32, "float64": pl.Float64,
         "bool": pl.Boolean, "str": pl.String, "date": pl.Date, "datetime": pl.Datetime("us"),
+        "datetime_ms": pl.Datetime("ms"), "datetime_ns": pl.Datetime("ns"),
         "null": pl.Null,
     }[dtype]
 
@@ -38,7 +39,7 @@ def pdt_dtype(dtype: str):
         "int": pdt.Int, "int8": pdt.Int8, "int16": pdt.Int16, "int32": pdt.Int32, "int64": pdt.Int64,
         "uint8": pdt.UInt8, "uint16": pdt.UInt16, "uint32": pdt.UInt32, "uint64": pdt.UInt64,
         "float": pdt.Float, "float32": pdt.Float32, "float64": pdt.Float64,
-        "bool": pdt.Bool, "str": pdt.String, "date": pdt.Date, "datetime": pdt.Datetime,
+        "bool": pdt.Bool, "str": pdt.String, "date": pdt.Date, "datetime": pdt.Datetime, "datetime_ms": pdt.Datetime, "datetime_ns": pdt.Datetime,
         "null": pdc.NullType,
     }[dtype]()
 
